@@ -968,3 +968,160 @@ N('c12-none-check-truthy', 'C12', MACHINE,
   """        light = self._get_named_light()
         if light:
             light.set_color(""")
+
+# ------------------------------------------------------------------ C13
+B('c13-discover-skips-names', 'C13', 'R13.a', LIGHTSET,
+  "                self._light_names.add(light_name)\n", "")
+B('c13-discover-skips-locations', 'C13', 'R13.a', LIGHTSET,
+  """                LightSet._update_memberships(
+                    light, light.get_location(), self._locations)
+""", "")
+B('c13-discover-conditional-map', 'C13', 'R13.a', LIGHTSET,
+  "                self._lights[light_name] = light\n",
+  "                if light_name not in self._lights:\n                    self._lights[light_name] = light\n")
+B('c13-gc-keeps-names', 'C13', 'R13.a', LIGHTSET,
+  "            self._light_names.remove(light_name)\n", "")
+B('c13-gc-keeps-groups', 'C13', 'R13.a', LIGHTSET,
+  "                LightSet._remove_memberships(light, self._groups)\n", "")
+B('c13-update-no-remove', 'C13', 'R13.b', LIGHTSET,
+  "        LightSet._remove_memberships(light, target_dict)\n        if name not in target_dict:",
+  "        if name not in target_dict:")
+B('c13-remove-leaves-empty', 'C13', 'R13.b', LIGHTSET,
+  """            if len(light_list) == 0:
+                to_be_deleted.append(list_name)
+""", "")
+B('c13-remove-first-only', 'C13', 'R13.b', LIGHTSET,
+  """            light_list.remove(light.get_name())
+            if len(light_list) == 0:
+                to_be_deleted.append(list_name)""",
+  """            light_list.remove(light.get_name())
+            if len(light_list) == 0:
+                to_be_deleted.append(list_name)
+            break""")
+B('c13-raw-append-sorted', 'C13', 'R13.c', LIGHTSET,
+  "            target_dict[name].add(light.get_name())", "            target_dict[name].append(light.get_name())")
+B('c13-add-no-presence-test', 'C13', 'R13.c', SORTED,
+  "        if self._index_of(value) is None:\n            bisect.insort(self, value)",
+  "        bisect.insort(self, value)")
+B('c13-user-mutates-names', 'C13', 'R13.c', VMDISC,
+  """        name_list = self._names_by_oper()
+        if len(name_list) == 0:""",
+  """        name_list = self._names_by_oper()
+        name_list.sort(reverse=True)
+        if len(name_list) == 0:""")
+B('c13-age-less-than', 'C13', 'R13.e', LIGHTSET,
+  "            if light.get_age() > max_age:", "            if light.get_age() < max_age:")
+N('c13-age-flipped', 'C13', LIGHTSET,
+  "            if light.get_age() > max_age:", "            if max_age < light.get_age():")
+N('c13-discover-reordered', 'C13', LIGHTSET,
+  """                self._light_names.add(light_name)
+                self._lights[light_name] = light""",
+  """                self._lights[light_name] = light
+                self._light_names.add(light_name)""")
+
+# ------------------------------------------------------------------ C14
+B('c14-table-swapped', 'C14', 'R14.a', UNITS,
+  "            UnitMode.RAW: logical_to_raw,\n            UnitMode.RGB: logical_to_rgb },",
+  "            UnitMode.RAW: logical_to_rgb,\n            UnitMode.RGB: logical_to_raw },")
+B('c14-machine-table-wrong-fn', 'C14', 'R14.a', MACHINE,
+  "            (UnitMode.RGB, UnitMode.LOGICAL, units.rgb_to_logical),",
+  "            (UnitMode.RGB, UnitMode.LOGICAL, units.raw_to_logical),")
+B('c14-machine-table-missing-pair', 'C14', 'R14.a', MACHINE,
+  "            (UnitMode.RAW, UnitMode.RGB, units.raw_to_rgb),\n", "")
+B('c14-same-mode-rewrites', 'C14', 'R14.b', MACHINE,
+  "        if from_mode is to_mode:\n            return\n", "")
+B('c14-color-read-after-mode', 'C14', 'R14.b', MACHINE,
+  """        original_color = self._reg.get_color()
+        self._reg.unit_mode = to_mode""",
+  """        self._reg.unit_mode = to_mode
+        original_color = self._reg.get_color()""")
+B('c14-time-not-converted', 'C14', 'R14.b', MACHINE,
+  """            self._reg.duration = units.time_raw(self._reg.duration)
+            self._reg.time = units.time_raw(self._reg.time)""",
+  """            self._reg.duration = units.time_raw(self._reg.duration)""")
+B('c14-time-wrong-direction', 'C14', 'R14.b', MACHINE,
+  """            self._reg.duration = units.time_logical(self._reg.duration)
+            self._reg.time = units.time_logical(self._reg.time)""",
+  """            self._reg.duration = units.time_raw(self._reg.duration)
+            self._reg.time = units.time_raw(self._reg.time)""")
+B('c14-time-when-rgb', 'C14', 'R14.b', MACHINE,
+  "        if to_mode is UnitMode.RAW:\n            self._reg.duration",
+  "        if to_mode is UnitMode.RGB:\n            self._reg.duration")
+B('c14-store-color-wrong-triple', 'C14', 'R14.b', MACHINE,
+  """        if self.unit_mode is not UnitMode.RGB:
+            self.hue, self.saturation, self.brightness, self.kelvin = color""",
+  """        if self.unit_mode is UnitMode.RGB:
+            self.hue, self.saturation, self.brightness, self.kelvin = color""")
+B('c14-moveq-plain-store', 'C14', 'R14.b', MACHINE,
+  """        if dest is Register.UNIT_MODE:
+            self._switch_unit_mode(value)
+        else:
+            self._do_put_value(dest, value)""",
+  """        self._do_put_value(dest, value)""")
+B('c14-kelvin-scaled', 'C14', 'R14.c', UNITS,
+  "    return [h, s, b, logical_color[3]]", "    return [h, s, b, logical_color[2]]")
+B('c14-kelvin-rgb', 'C14', 'R14.c', UNITS,
+  "    return [r * 100.0, g * 100.0, b * 100.0, raw_color[3]]",
+  "    return [r * 100.0, g * 100.0, b * 100.0, raw_color[3] / 65535.0]")
+N('c14-eq-compare', 'C14', MACHINE,
+  "        if from_mode is to_mode:\n            return", "        if from_mode == to_mode:\n            return")
+N('c14-table-row-order', 'C14', MACHINE,
+  """            (UnitMode.LOGICAL, UnitMode.RAW, units.logical_to_raw),
+            (UnitMode.LOGICAL, UnitMode.RGB, units.logical_to_rgb),""",
+  """            (UnitMode.LOGICAL, UnitMode.RGB, units.logical_to_rgb),
+            (UnitMode.LOGICAL, UnitMode.RAW, units.logical_to_raw),""")
+
+# ------------------------------------------------------------------ C15
+B('c15-zone-end-not-widened', 'C15', 'R15.a', MACHINE,
+  "                start_index, end_index + 1,", "                start_index, end_index,")
+B('c15-zone-none-after', 'C15', 'R15.a', MACHINE,
+  """            if end_index is None:
+                end_index = start_index
+""", "")
+B('c15-overlay-exclusive', 'C15', 'R15.a', MATRIX,
+  """        self._normalize_rect(rect)
+        for row in range(rect.top, rect.bottom + 1):
+            for column in range(rect.left, rect.right + 1):
+                self._mat[row][column] = color""",
+  """        self._normalize_rect(rect)
+        for row in range(rect.top, rect.bottom):
+            for column in range(rect.left, rect.right + 1):
+                self._mat[row][column] = color""")
+B('c15-overlay-no-normalize', 'C15', 'R15.a', MATRIX,
+  """        # Set the cells within rect to color.
+        self._normalize_rect(rect)
+""", "        # Set the cells within rect to color.\n")
+B('c15-stage-sends', 'C15', 'R15.b', MACHINE,
+  "        mat.overlay_color(rect, color)",
+  "        mat.overlay_color(rect, color)\n        self._color_matrix_light()")
+B('c15-fill-before-convert', 'C15', 'R15.c', MACHINE,
+  """            matrix = self._as_raw_matrix(matrix)
+            matrix.find_replace(None, self._reg.default or [0, 0, 0, 0])""",
+  """            matrix.find_replace(None, self._reg.default or [0, 0, 0, 0])
+            matrix = self._as_raw_matrix(matrix)""")
+B('c15-default-not-raw', 'C15', 'R15.c', MACHINE,
+  "        self._reg.default = self._as_raw_color(self._reg.get_color())",
+  "        self._reg.default = self._reg.get_color()")
+B('c15-no-fill', 'C15', 'R15.c', MACHINE,
+  "            matrix.find_replace(None, self._reg.default or [0, 0, 0, 0])\n", "")
+B('c15-columns-not-cleared', 'C15', 'R15.d', MPARSER,
+  """        if not has_columns:
+            self.code_gen.add_list(
+                (OpCode.MOVEQ, None, Register.FIRST_COLUMN),
+                (OpCode.MOVEQ, None, Register.LAST_COLUMN)
+            )
+""", "")
+B('c15-range-keeps-last', 'C15', 'R15.d', MPARSER,
+  "        self.code_gen.add_instruction(OpCode.MOVEQ, None, last)\n        return True",
+  "        return True")
+B('c15-normalize-asymmetric', 'C15', 'R15.d', MATRIX,
+  "            case False, True:\n                rect.right = rect.left",
+  "            case False, True:\n                rect.right = self.width - 1")
+B('c15-matrix-wrong-direction', 'C15', 'R15.e', MACHINE,
+  "        xform_fn = units.convert_fn(self._reg.unit_mode, UnitMode.RAW)\n        return ColorMatrix.new_from_iterable(srce.height",
+  "        xform_fn = units.convert_fn(UnitMode.RAW, self._reg.unit_mode)\n        return ColorMatrix.new_from_iterable(srce.height")
+B('c15-raw-color-rgb-as-logical', 'C15', 'R15.e', MACHINE,
+  "        if self._reg.unit_mode is UnitMode.RGB:\n            return units.rgb_to_raw(color)",
+  "        if self._reg.unit_mode is UnitMode.RGB:\n            return units.logical_to_raw(color)")
+N('c15-plus-one-left', 'C15', MACHINE,
+  "                start_index, end_index + 1,", "                start_index, 1 + end_index,")
